@@ -25,6 +25,7 @@ import (
 	"github.com/element-of-surprise/coercion/workflow"
 	"github.com/element-of-surprise/coercion/workflow/context"
 	"github.com/element-of-surprise/coercion/workflow/storage"
+	"github.com/element-of-surprise/coercion/workflow/storage/cosmosdb"
 	"github.com/element-of-surprise/coercion/workflow/storage/sqlite"
 	"github.com/google/uuid"
 )
@@ -982,6 +983,110 @@ func absDur(d time.Duration) time.Duration {
 	return d
 }
 
+// ---------------------------------------------------------------- the real cosmosdb.Vault and storage.Recovery
+
+// cosmosProbe looks at the REAL *cosmosdb.Vault (over the package's fake client, build tag verif):
+//
+//	(a) does it still implement storage.Recovery?  coercion.New only repairs the search entries of a Vault
+//	    for which `store.(storage.Recovery)` holds, and nothing asserts that at compile time;
+//	(b) the state the repair exists for - plan item terminal, search entry still Running - is crafted (the
+//	    search-partition write of UpdatePlan is made to fail), then Recovery() is called and the search entry
+//	    is looked at again.  How far (b) gets depends on the fake: see the "stopped_at" field.
+func cosmosProbe() (out map[string]any) {
+	out = map[string]any{}
+	ctx := context.Background()
+	set := hplug.NewSet()
+	v, ctl := cosmosdb.NewFakeVaultOpts(set.Reg, "swarm", 0)
+	rec, ok := any(v).(storage.Recovery)
+	out["vault_type"] = fmt.Sprintf("%T", v)
+	out["implements_recovery"] = ok
+
+	step := "craft"
+	defer func() {
+		if r := recover(); r != nil {
+			out["stopped_at"] = step
+			out["panic"] = fmt.Sprint(r)
+		}
+	}()
+	newID := func() uuid.UUID { u, _ := uuid.NewV7(); return u }
+	st := func(s workflow.Status) *workflow.State {
+		return &workflow.State{Status: s, Start: time.Now().Add(-time.Minute)}
+	}
+	a := &workflow.Action{ID: newID(), Name: "a", Descr: "d", Plugin: hplug.ActionName, Req: hplug.Req{Nonce: "probe"}, State: st(workflow.Running)}
+	q := &workflow.Sequence{ID: newID(), Name: "s", Descr: "d", Actions: []*workflow.Action{a}, State: st(workflow.Running)}
+	b := &workflow.Block{ID: newID(), Name: "b", Descr: "d", Sequences: []*workflow.Sequence{q}, State: st(workflow.Running), Concurrency: 1}
+	p := &workflow.Plan{ID: newID(), Name: "p", Descr: "d", Blocks: []*workflow.Block{b}, State: st(workflow.Running), SubmitTime: time.Now().Add(-time.Hour)}
+	if err := v.Create(ctx, p); err != nil {
+		out["stopped_at"] = "craft: Create: " + err.Error()
+		return out
+	}
+	searchStatus := func() int {
+		raw, err := ctl.SearchItemRaw(ctx, p.ID.String())
+		if err != nil {
+			return -1
+		}
+		var e struct {
+			StateStatus int `json:"stateStatus"`
+		}
+		if json.Unmarshal(raw, &e) != nil {
+			return -1
+		}
+		return e.StateStatus
+	}
+	// the plan finishes; the process dies between the plan item's patch and the search entry's replace
+	for _, x := range nodesOf(p) {
+		x.st.Status = workflow.Completed
+		x.st.End = time.Now()
+	}
+	ctl.SetPoisonSearchPartition(true)
+	ctl.SetReplaceItemErr(true)
+	uerr := v.UpdatePlan(ctx, p)
+	ctl.SetReplaceItemErr(false)
+	ctl.SetPoisonSearchPartition(false)
+	out["update_with_failing_search_write_error"] = uerr != nil
+	rp, err := v.Read(ctx, p.ID)
+	if err != nil {
+		out["stopped_at"] = "craft: Read: " + err.Error()
+		return out
+	}
+	out["plan_item_status"] = plancoq.Status(rp.State.Status)
+	out["search_entry_status_before_recovery"] = searchStatus()
+	stale := rp.State.Status == workflow.Completed && searchStatus() == int(workflow.Running)
+	out["stale_search_entry_crafted"] = stale
+	if !stale {
+		out["stopped_at"] = "craft: the fake did not leave the search entry behind"
+		return out
+	}
+	step = "search"
+	n, listed := 0, false
+	if ch, err := v.Search(ctx, storage.Filters{ByStatus: []workflow.Status{workflow.Running}}); err == nil {
+		for r := range ch {
+			n++
+			if r.Err == nil && r.Result.ID == p.ID {
+				listed = true
+			}
+		}
+	}
+	out["search_running_results"] = n
+	out["search_running_lists_the_finished_plan"] = listed
+	if !ok {
+		out["stopped_at"] = "the Vault does not implement storage.Recovery: nothing to call"
+		return out
+	}
+	step = "Recovery() (a panic here: the fake Vault of verif_hooks.go does not wire the unexported recovery{reader, updater} field)"
+	rerr := rec.Recovery(ctx)
+	out["recovery_error"] = fmt.Sprint(rerr)
+	after := searchStatus()
+	out["search_entry_status_after_recovery"] = after
+	out["search_entry_repaired"] = after == int(rp.State.Status)
+	if !listed {
+		out["stopped_at"] = "Recovery() ran, but the fake answers a status-only Search with an empty result, so Recovery() had no entry to repair"
+		return out
+	}
+	out["stopped_at"] = "complete"
+	return out
+}
+
 // ---------------------------------------------------------------- the parent: one child per store
 
 func main() {
@@ -1028,6 +1133,9 @@ func main() {
 		}(i)
 	}
 	wg.Wait()
+	if *only < 0 {
+		w.Put(core.Case{ID: "cosmos-recovery-probe", Kind: "cosmos-recovery-probe", Observed: cosmosProbe(), Note: "probe"})
+	}
 	for i := 0; i < *n; i++ {
 		if *only >= 0 && i != *only {
 			continue
